@@ -16,6 +16,7 @@ const (
 	opISZERO       = 0x15
 	opCALLDATALOAD = 0x35
 	opCODECOPY     = 0x39
+	opEXTCODESIZE  = 0x3b
 	opPOP          = 0x50
 	opMSTORE       = 0x52
 	opMSTORE8      = 0x53
@@ -120,15 +121,17 @@ func (a *asm) finish() []byte {
 	return a.b
 }
 
+// markers are EXTCODESIZE reads of a 20-byte pseudo address (available on every fork, no side effect):
+// magic(2) kind(1) .. id(4) flag(1)
 func markerKey(kind, id int) []byte {
-	k := make([]byte, 32)
+	k := make([]byte, 20)
 	k[0] = markerMagic0
 	k[1] = markerMagic1
 	k[2] = byte(kind)
-	k[27] = byte(id >> 24)
-	k[28] = byte(id >> 16)
-	k[29] = byte(id >> 8)
-	k[30] = byte(id)
+	k[15] = byte(id >> 24)
+	k[16] = byte(id >> 16)
+	k[17] = byte(id >> 8)
+	k[18] = byte(id)
 	return k
 }
 
@@ -243,7 +246,7 @@ func (c *compiler) marker(a *asm, kind, id int, addFlag bool) {
 	if addFlag {
 		a.op(opADD)
 	}
-	a.op(opTLOAD, opPOP)
+	a.op(opEXTCODESIZE, opPOP)
 }
 
 func (c *compiler) body(a *asm, f *frame, self string) {
@@ -372,6 +375,10 @@ func (c *compiler) body(a *asm, f *frame, self string) {
 		a.op(opRETURN)
 	case "retbig":
 		a.push(24576)
+		a.push(0)
+		a.op(opRETURN)
+	case "retmax":
+		a.push(245760) // exactly MaxCodeSize: allowed, but its deposit (200 gas per byte) is never affordable here
 		a.push(0)
 		a.op(opRETURN)
 	case "rethuge":
